@@ -122,6 +122,10 @@ type Interp struct {
 	feasCache map[string]bool
 	models    []map[string]term.Val // recent models of path conditions (counterexample cache)
 	cacheHits int
+	varsOf    map[int][]string
+	oblCache  map[string]Obligation
+	pcModels  map[string]pcModel
+	oblHits   int
 	solverDur time.Duration
 	queries   int
 
@@ -146,7 +150,7 @@ type Interp struct {
 // Load builds SSA for the module rooted at dir with overlay files injected.
 func Load(dir string, overlay map[string][]byte, patterns []string, cfg Config) (*Interp, error) {
 	pcfg := &packages.Config{
-		Mode:    packages.LoadAllSyntax,
+		Mode:    packages.LoadAllSyntax | packages.NeedModule,
 		Dir:     dir,
 		Overlay: overlay,
 		Env:     append(os.Environ(), "GOFLAGS=-mod=mod", "GOPROXY=off", "GOSUMDB=off", "GOTOOLCHAIN=local"),
@@ -205,7 +209,10 @@ func (in *Interp) RunInits() (err error) {
 	defer func() {
 		in.concrete = false
 		if r := recover(); r != nil {
-			err = fmt.Errorf("init failed: %v", r)
+			err = fmt.Errorf("init failed: %v%s", r, in.where())
+			if os.Getenv("SYMGO_DEBUG") != "" {
+				panic(r)
+			}
 		}
 	}()
 	done := map[*ssa.Package]bool{}
@@ -283,6 +290,23 @@ func (in *Interp) preciseMode() smt.Mode {
 	return smt.Mode{Float: "fp", Int: im}
 }
 
+// intSolver picks the solver for float-free queries: z3 4.8.12 is fastest on
+// linear integer / BV queries but answers unknown on nonlinear Int ones that
+// z3 5.1.0 decides at once (measured on the matrix-header obligations).
+func intSolver(ts []*term.Term) string {
+	for _, t := range term.Topo(ts...) {
+		switch t.Op {
+		case "mul":
+			if !t.Args[0].IsConst() && !t.Args[1].IsConst() {
+				return "z3-new"
+			}
+		case "div", "rem":
+			return "z3-new"
+		}
+	}
+	return "z3"
+}
+
 func hasFloat(ts []*term.Term) bool {
 	for _, t := range term.Topo(ts...) {
 		if t.Sort.K == term.KFloat {
@@ -332,8 +356,12 @@ func (in *Interp) feasible(c *term.Term) bool {
 	if in.pcSet[term.Not(c).ID] {
 		return false
 	}
-	ids := make([]int, 0, len(in.pc)+1)
-	for _, t := range in.pc {
+	// constraint independence: only the conjuncts that share variables
+	// (transitively) with c can affect its feasibility, given that pc itself
+	// is feasible
+	rel := in.relevantPC(c)
+	ids := make([]int, 0, len(rel)+1)
+	for _, t := range rel {
 		ids = append(ids, t.ID)
 	}
 	sort.Ints(ids)
@@ -341,7 +369,7 @@ func (in *Interp) feasible(c *term.Term) bool {
 	if v, ok := in.feasCache[key]; ok {
 		return v
 	}
-	asserts := in.withFacts(append(append([]*term.Term{}, in.pc...), c))
+	asserts := in.withFacts(append(rel, c))
 	// counterexample cache: a recent model that satisfies everything
 	for i := len(in.models) - 1; i >= 0 && i >= len(in.models)-8; i-- {
 		if in.satisfies(in.models[i], asserts) {
@@ -351,7 +379,7 @@ func (in *Interp) feasible(c *term.Term) bool {
 		}
 	}
 	sc := smt.Build(in.feasMode(), asserts)
-	kind := "z3"
+	kind := intSolver(asserts)
 	if in.job.Mode != "real" && hasFloat(asserts) {
 		kind = "cvc5"
 	}
@@ -368,6 +396,68 @@ func (in *Interp) feasible(c *term.Term) bool {
 	v := r.Status != "unsat"
 	in.feasCache[key] = v
 	return v
+}
+
+// termVars returns the sorted ids of variables and UF applications (treated as
+// shared symbols by name) under t.
+func (in *Interp) termVars(t *term.Term) []string {
+	if v, ok := in.varsOf[t.ID]; ok {
+		return v
+	}
+	set := map[string]bool{}
+	for _, x := range term.Topo(t) {
+		switch x.Op {
+		case "var":
+			set[x.Name] = true
+		case "uf":
+			set["uf:"+x.Name] = true
+		}
+	}
+	var out []string
+	for k := range set {
+		out = append(out, k)
+	}
+	sort.Strings(out)
+	if in.varsOf == nil {
+		in.varsOf = map[int][]string{}
+	}
+	in.varsOf[t.ID] = out
+	return out
+}
+
+func (in *Interp) relevantPC(c *term.Term) []*term.Term {
+	need := map[string]bool{}
+	for _, v := range in.termVars(c) {
+		need[v] = true
+	}
+	// facts attached to UF nodes may mention further variables
+	used := make([]bool, len(in.pc))
+	var out []*term.Term
+	for changed := true; changed; {
+		changed = false
+		for i, t := range in.pc {
+			if used[i] {
+				continue
+			}
+			vs := in.termVars(t)
+			hit := false
+			for _, v := range vs {
+				if need[v] {
+					hit = true
+					break
+				}
+			}
+			if hit {
+				used[i] = true
+				changed = true
+				out = append(out, t)
+				for _, v := range vs {
+					need[v] = true
+				}
+			}
+		}
+	}
+	return out
 }
 
 func (in *Interp) satisfies(m map[string]term.Val, asserts []*term.Term) bool {
@@ -430,7 +520,7 @@ func (in *Interp) modelValue(t *term.Term) (int64, bool) {
 	pick := term.Var(t.Sort, fmt.Sprintf("pick!%d", t.ID))
 	asserts := in.withFacts(append(append([]*term.Term{}, in.pc...), term.Eq(pick, t)))
 	sc := smt.Build(in.feasMode(), asserts)
-	kind := "z3"
+	kind := intSolver(asserts)
 	if in.job.Mode != "real" && hasFloat(asserts) {
 		kind = "cvc5"
 	}
@@ -488,7 +578,10 @@ func (in *Interp) decodeModel(raw map[string]string, mode smt.Mode) map[string]s
 	return out
 }
 
-// check decides one proof obligation: pc ∧ facts ⟹ cond.
+// check decides one proof obligation: pc ∧ facts ⟹ cond. Only the conjuncts of
+// the path condition that share variables with cond are sent (the rest is
+// satisfiable on its own because the path is feasible); verdicts are cached
+// per (slice, cond) so sibling paths do not repeat a query.
 func (in *Interp) check(label string, cond *term.Term) Obligation {
 	ob := Obligation{Label: label, Path: in.pathID}
 	if cond.IsConst() && cond.BoolV() {
@@ -500,9 +593,62 @@ func (in *Interp) check(label string, cond *term.Term) Obligation {
 		ob.Note = "concrete evaluation false"
 		return ob
 	}
-	t0 := time.Now()
 	neg := term.Not(cond)
-	asserts := in.withFacts(append(append([]*term.Term{}, in.pc...), neg))
+	rel := in.relevantPC(neg)
+	ids := make([]int, 0, len(rel)+1)
+	relSet := map[int]bool{}
+	for _, t := range rel {
+		ids = append(ids, t.ID)
+		relSet[t.ID] = true
+	}
+	sort.Ints(ids)
+	key := fmt.Sprint(ids, neg.ID)
+	cached, hit := in.oblCache[key]
+	if !hit {
+		cached = in.checkSlice(rel, neg)
+		in.oblCache[key] = cached
+	} else {
+		in.oblHits++
+	}
+	ob.Status, ob.Tier, ob.Solver, ob.Ms, ob.Weak, ob.Note = cached.Status, cached.Tier, cached.Solver, cached.Ms, cached.Weak, cached.Note
+	if hit {
+		ob.Ms = 0
+	}
+	if cached.Status == "candidate" {
+		// complete the model with values for the rest of the path condition
+		ob.Model = map[string]string{}
+		var rest []*term.Term
+		for _, t := range in.pc {
+			if !relSet[t.ID] {
+				rest = append(rest, t)
+			}
+		}
+		if len(rest) > 0 {
+			save := in.pc
+			in.pc = rest
+			m, weak, why := in.modelOfPC()
+			in.pc = save
+			if m == nil {
+				ob.Status = "inconclusive"
+				ob.Note = "no model for the independent part of the path condition: " + why
+				return ob
+			}
+			ob.Weak = ob.Weak || weak
+			for k, v := range m {
+				ob.Model[k] = v
+			}
+		}
+		for k, v := range cached.Model {
+			ob.Model[k] = v
+		}
+	}
+	return ob
+}
+
+func (in *Interp) checkSlice(rel []*term.Term, neg *term.Term) Obligation {
+	ob := Obligation{}
+	t0 := time.Now()
+	asserts := in.withFacts(append(append([]*term.Term{}, rel...), neg))
 	oblCap := in.cfg.OblCapMs
 	if in.job.OblCapMs > 0 {
 		oblCap = in.job.OblCapMs
@@ -532,8 +678,21 @@ func (in *Interp) check(label string, cond *term.Term) Obligation {
 	floaty := hasFloat(asserts)
 	if !floaty {
 		sc := smt.Build(in.preciseMode(), asserts)
-		r := in.proc("z3", oblCap).Check(sc, true)
+		r := in.proc(intSolver(asserts), oblCap).Check(sc, true)
 		in.account(r)
+		if r.Status == "unknown" {
+			for _, alt := range []string{"z3-new", "z3", "cvc5"} {
+				if alt == r.Solver {
+					continue
+				}
+				r2 := in.proc(alt, oblCap).Check(sc, true)
+				in.account(r2)
+				if r2.Status != "unknown" {
+					r = r2
+					break
+				}
+			}
+		}
 		ob.Tier, ob.Solver = "int", r.Solver
 		switch r.Status {
 		case "unsat":
@@ -614,7 +773,88 @@ func (in *Interp) raceReal(sc *smt.Script, capMs int) smt.Result {
 }
 
 // modelOfPC returns input values satisfying the current path condition.
+type pcModel struct {
+	m    map[string]string
+	weak bool
+	why  string
+}
+
+// modelOfPC returns input values satisfying the current path condition. The
+// condition is split into variable-disjoint components that are solved (and
+// cached) separately.
 func (in *Interp) modelOfPC() (map[string]string, bool, string) {
+	out := map[string]string{}
+	weak := false
+	for _, comp := range in.components(in.pc) {
+		ids := make([]int, 0, len(comp))
+		for _, t := range comp {
+			ids = append(ids, t.ID)
+		}
+		sort.Ints(ids)
+		key := fmt.Sprint(ids)
+		c, ok := in.pcModels[key]
+		if !ok {
+			save := in.pc
+			in.pc = comp
+			m, w, why := in.modelOfPC1()
+			in.pc = save
+			c = pcModel{m, w, why}
+			in.pcModels[key] = c
+		}
+		if c.m == nil {
+			return nil, false, c.why
+		}
+		weak = weak || c.weak
+		for k, v := range c.m {
+			out[k] = v
+		}
+	}
+	return out, weak, ""
+}
+
+// components partitions conjuncts into groups that share no variables.
+func (in *Interp) components(conj []*term.Term) [][]*term.Term {
+	parent := map[string]string{}
+	var find func(x string) string
+	find = func(x string) string {
+		if p, ok := parent[x]; ok && p != x {
+			r := find(p)
+			parent[x] = r
+			return r
+		}
+		parent[x] = x
+		return x
+	}
+	for _, t := range conj {
+		vs := in.termVars(t)
+		for i := 1; i < len(vs); i++ {
+			a, b := find(vs[0]), find(vs[i])
+			if a != b {
+				parent[a] = b
+			}
+		}
+	}
+	groups := map[string][]*term.Term{}
+	var order []string
+	for _, t := range conj {
+		vs := in.termVars(t)
+		k := "$const"
+		if len(vs) > 0 {
+			k = find(vs[0])
+		}
+		if _, ok := groups[k]; !ok {
+			order = append(order, k)
+		}
+		groups[k] = append(groups[k], t)
+	}
+	var out [][]*term.Term
+	for _, k := range order {
+		out = append(out, groups[k])
+	}
+	return out
+}
+
+func (in *Interp) modelOfPC1() (map[string]string, bool, string) {
 	asserts := in.withFacts(append([]*term.Term{}, in.pc...))
 	if len(asserts) == 0 {
 		return map[string]string{}, false, ""
@@ -629,7 +869,7 @@ func (in *Interp) modelOfPC() (map[string]string, bool, string) {
 	}
 	if !hasFloat(asserts) {
 		sc := smt.Build(in.preciseMode(), asserts)
-		r := in.proc("z3", in.cfg.OblCapMs).Check(sc, true)
+		r := in.proc(intSolver(asserts), in.cfg.OblCapMs).Check(sc, true)
 		in.account(r)
 		if r.Status == "sat" {
 			return in.decodeModel(r.Model, sc.Mode), false, ""
@@ -669,6 +909,9 @@ func (in *Interp) RunJob(job Job) *JobRes {
 	in.funcsSeen = res.Funcs
 	in.stubsSeen = res.Stubs
 	in.feasCache = map[string]bool{}
+	in.oblCache = map[string]Obligation{}
+	in.pcModels = map[string]pcModel{}
+	in.oblHits = 0
 	in.models = nil
 	in.cacheHits = 0
 	in.work = [][]Decision{{}}
@@ -806,4 +1049,13 @@ func (in *Interp) panicObligation(p execPanic) {
 	}
 	in.nobl++
 	in.res.Obligations = append(in.res.Obligations, ob)
+}
+
+// DebugGlobals prints package-level variables matching substr (debugging aid).
+func (in *Interp) DebugGlobals(substr string) {
+	for g, p := range in.globals {
+		if strings.Contains(g.String(), substr) {
+			fmt.Fprintf(os.Stderr, "global %s = %#v\n", g.String(), *p)
+		}
+	}
 }
